@@ -49,4 +49,9 @@ var VerifShim = map[string]any{
 	"G2Affine.fromJacExtended": func(p *G2Affine, q *g2JacExtended) *G2Affine { return p.fromJacExtended(q) },
 	"new.g2Proj": func() *g2Proj { return new(g2Proj) },
 	"g2Proj.FromAffine": func(p *g2Proj, a *G2Affine) *g2Proj { return p.FromAffine(a) },
+	"fn._innerMsmG1": _innerMsmG1,
+	"fn._innerMsmG2": _innerMsmG2,
+	"fn.partitionScalars": partitionScalars,
+	"fn.computeNbChunks": computeNbChunks,
+	"fn.lastC": lastC,
 }
